@@ -235,8 +235,65 @@ def _is_len_of(t, pname):
     return False
 
 
+def _len_offset(x, pname):
+    """c such that len(x) = len(pname) - c for a slice x of the parameter (the parameter itself: 0), else None."""
+    y = B.peel(x)
+    if y.op == "param" and y.a[1] == pname:
+        return 0
+    sf = B.slice_form(x)
+    if sf is None:
+        return None
+    base, st, en = sf
+    if not (base.op == "param" and base.a[1] == pname):
+        return None
+    l = B._lin(("sub", ("sub", ("len", base), en), ("c", 0)))
+    l2 = B._lin(st)
+    if l is None or l2 is None:
+        return None
+    # (len(base) - end) + start must be a constant
+    tot = B._lin(("add", ("sub", ("len", base), en), st))
+    if tot is None or tot[1]:
+        return None
+    return tot[0] if tot[0] >= 0 else None
+
+
+_SOME_NEEDS = {"slice::<impl [T]>::split_first": 1, "slice::<impl [T]>::split_last": 1, "slice::<impl [T]>::first": 1, "slice::<impl [T]>::last": 1}
+
+
+def _literal_len_bound(atom, pol, pname):
+    """Lower bound on len(pname) implied by one path literal (0 when it says nothing)."""
+    if atom[0] != "atom":
+        return 0
+    if atom[1] == "term" and not pol:
+        t = atom[2]
+        if t.op == "call" and B.cname(t) in ("slice::<impl [T]>::is_empty", "Vec::<T, A>::is_empty") and len(t.a[1]) == 1:
+            c = _len_offset(t.a[1][0], pname)
+            if c is not None:
+                return c + 1
+    some = None
+    if pol and atom[1] == "is_some":
+        some = atom[2]
+    if pol and len(atom) > 3 and ((atom[1] == "switch" and atom[3] == 1) or (atom[1] == "switch_not" and tuple(atom[3]) == (0,))) and atom[2].op == "discr":
+        some = atom[2].a[0]
+    if some is not None:
+        if True:
+            t = B.peel(some)
+            if t.op == "call" and len(t.a[1]) >= 1:
+                need = _SOME_NEEDS.get(B.cname(t))
+                if need is None and B.cname(t) == "slice::<impl [T]>::get" and len(t.a[1]) == 2:
+                    i = B._const_int(t.a[1][1])
+                    need = i + 1 if i is not None else None
+                if need is not None:
+                    c = _len_offset(t.a[1][0], pname)
+                    if c is not None:
+                        return c + need
+    return 0
+
+
 def len_at_least(lits, pname, k):
     """Do the literals imply len(param) >= k ?"""
+    if any(_literal_len_bound(atom, pol, pname) >= k for atom, pol in lits):
+        return True
     for atom, pol in lits:
         if atom[0] == "atom" and atom[1] == "term" and not pol and k <= 1:
             t = atom[2]
